@@ -210,7 +210,17 @@ func (s *Sim) CheckTemplate() {
 
 	// update time / extra nonce at a later clock value, solve, feed back
 	if c.Bool(500, "tmpl-advance") {
-		s.Advance(time.Duration(simkit.Range(c, 1, 900, "tmpl-wait")) * time.Second)
+		wait := int64(simkit.Range(c, 1, 900, "tmpl-wait"))
+		if ahead := s.n.Tip().mtp() - s.adjNow(); ahead >= 0 && c.Bool(600, "tmpl-clock-at-mtp") {
+			// the chain's median time is ahead of the clock: move the clock
+			// to the median time itself (the block must still be later)
+			wait = ahead + int64(c.Intn(3, "tmpl-mtp-off")) - 1
+			if wait < 0 {
+				wait = 0
+			}
+			r.Probe("template-time-updated-with-clock-at-median-time")
+		}
+		s.Advance(time.Duration(wait) * time.Second)
 		if err := s.n.Gen.UpdateBlockTime(msg); err != nil {
 			r.Violate("C12", "update-block-time", "", "UpdateBlockTime: %v", err)
 		}
